@@ -37,6 +37,9 @@ def default_inline(f, caller, nargs=0, kwnames=()):
     two public helpers that core uses internally: volume, and the *read* form
     of reset (one argument; the write form has its PRAGMA retry loop and is
     analysed as an entry point of its own)."""
+    if f.cls is None and f.parent is None and f.module == caller.module and f.name.startswith('_') \
+            and not f.name.startswith('__'):
+        return True     # private module-level helper of the same module
     if f.cls != caller.cls or f.cls is None:
         return False
     if f.is_property:
